@@ -929,5 +929,5 @@ def call_native(it, fn, args, kwargs):
         return fn(*args, **kwargs)
     except (PathEnd, Unsupported, PyRaise):
         raise
-    except (KeyError, IndexError, TypeError, AttributeError, ValueError, StopIteration, ZeroDivisionError) as e:
+    except (KeyError, IndexError, TypeError, AttributeError, ValueError, StopIteration, ZeroDivisionError, NameError, SyntaxError, OSError, AssertionError) as e:
         raise PyRaise(e)
